@@ -459,6 +459,17 @@ func (s *scriptedExec) Run() error {
 	var out string
 	if r.free {
 		out = r.freeOutcome(s, att)
+		why := "script"
+		if out == "ctx" {
+			why = "ctx"
+		} else if out != "ok" && out != "fail" {
+			why = "signal"
+		}
+		if isHandlerName(s.name) {
+			r.emit(Ev{"ev": "HEnd", "h": hIndex(s.name), "ok": out == "ok"})
+		} else {
+			r.emit(Ev{"ev": "ExecEnd", "s": stepIndex(s.name), "ok": out == "ok", "why": why})
+		}
 	} else {
 		out = r.park("proc", s.name, nil)
 	}
@@ -588,11 +599,15 @@ func (sc *Scenario) resetEvent() Ev {
 	}
 	hs := append([]string{}, sc.Handlers...)
 	hf := append([]string{}, sc.HFail...)
-	return Ev{"ev": "Reset", "n": sc.N, "deps": deps, "contF": sc.ContF, "contS": sc.ContS,
+	e := Ev{"ev": "Reset", "n": sc.N, "deps": deps, "contF": sc.ContF, "contS": sc.ContS,
 		"rlimit": sc.RLimit, "pcond": sc.PCond, "repeat": sc.Repeat, "obeys": sc.Obeys,
 		"sigOnStop": sc.SigOnStop, "failK": sc.FailK, "maxActive": sc.MaxActive,
 		"handlers": hs, "hfail": hf, "doneChan": sc.DoneChan, "dry": sc.Dry,
 		"stop": sc.Stop, "kill": sc.Kill, "timeout": sc.Timeout, "seed": sc.Seed}
+	if len(sc.Moves) > 0 {
+		e["model"] = true
+	}
+	return e
 }
 
 var quietLogger = logger.NewLogger(logger.NewLoggerArgs{Quiet: true})
@@ -814,9 +829,15 @@ func (r *schedRun) issueStop(sig syscall.Signal) {
 	}()
 }
 
-func (r *schedRun) doRelease(p *parked) {
+func (r *schedRun) doRelease(p *parked) { r.doReleaseF(p, "") }
+
+// doReleaseF: forced (if not empty) overrides the scripted outcome of a process (model-driven replay)
+func (r *schedRun) doReleaseF(p *parked, forced string) {
 	if p.point == "proc" || p.point == "h.proc" {
 		out, why := r.outcomeFor(p)
+		if why == "script" && forced != "" {
+			out = forced
+		}
 		if isHandlerName(p.step) {
 			r.emit(Ev{"ev": "HEnd", "h": hIndex(p.step), "ok": out == "ok"})
 		} else {
@@ -828,7 +849,10 @@ func (r *schedRun) doRelease(p *parked) {
 	r.release(p, "")
 }
 
-func (r *schedRun) enabled() []*parked {
+func (r *schedRun) enabled() []*parked { return r.enabledM(false) }
+
+// enabledM: in model-driven mode an idle loop iteration is a legal move (the model has it too)
+func (r *schedRun) enabledM(model bool) []*parked {
 	r.mu.Lock()
 	defer r.mu.Unlock()
 	var out []*parked
@@ -836,7 +860,7 @@ func (r *schedRun) enabled() []*parked {
 		if p.thread == "L" && p.point == "loop.wgwait" && r.liveWorkers > 0 {
 			continue
 		}
-		if p.thread == "L" && p.point == "loop.top" && r.lStale {
+		if p.thread == "L" && p.point == "loop.top" && r.lStale && !model {
 			continue // releasing the loop now would repeat an identical iteration (pure stuttering)
 		}
 		out = append(out, p)
@@ -947,9 +971,16 @@ func (r *schedRun) driveMoves() error {
 		case "timeout":
 			r.passDeadline()
 			continue
+		case "end":
+			continue
+		}
+		forced := ""
+		if strings.HasPrefix(m, "P:") && strings.Count(m, ":") == 2 {
+			k := strings.LastIndex(m, ":")
+			forced, m = m[k+1:], m[:k]
 		}
 		var pick *parked
-		for _, p := range r.enabled() {
+		for _, p := range r.enabledM(true) {
 			isP := p.point == "proc" || p.point == "h.proc"
 			name := p.thread
 			if isP {
@@ -968,7 +999,7 @@ func (r *schedRun) driveMoves() error {
 			r.emit(Ev{"ev": "Diverged", "move": m})
 			break
 		}
-		r.doRelease(pick)
+		r.doReleaseF(pick, forced)
 	}
 	// finish the run with the random driver (the model behaviour may be a prefix)
 	return r.driveRandom()
